@@ -1091,75 +1091,166 @@ func init() {
 
 func ruleEqualsFromOrder(c *Ctx) {
 	eq := c.Func("internal/field", "Value", "Equals")
-	if eq == nil || eq.Decl.Body == nil {
-		c.und("anchors", 0, "field.Value.Equals not found")
+	less := c.Func("internal/field", "Value", "Less")
+	if eq == nil || eq.Decl.Body == nil || less == nil || less.Decl.Body == nil {
+		c.und("anchors", 0, "field.Value.Equals / field.Value.Less not found")
 		return
 	}
-	info := eq.Info()
-	recv := info.ObjectOf(eq.Decl.Recv.List[0].Names[0])
-	var param types.Object
-	if ps := eq.Decl.Type.Params.List; len(ps) == 1 && len(ps[0].Names) == 1 {
-		param = info.ObjectOf(ps[0].Names[0])
+	// Both functions are evaluated as decision tables (DT). The operands are the symbols A (receiver) and
+	// B (parameter); a call of a method of Value that is not evaluated in place (the comparison proper:
+	// LessCase with its loops) is an atom named by callee, operands and the constant flags it receives, the
+	// same atom wherever it is consulted. The order is whatever single atom Less(A, B) returns; Equals must
+	// consult only that atom and its mirror image, return true when both are false and false when one holds.
+	table := func(fn *FuncInfo) []dtLeaf {
+		info := fn.Info()
+		if len(fn.Decl.Recv.List) != 1 || len(fn.Decl.Recv.List[0].Names) != 1 {
+			return []dtLeaf{{Undecided: "unnamed receiver"}}
+		}
+		recv := info.ObjectOf(fn.Decl.Recv.List[0].Names[0])
+		var param types.Object
+		if ps := fn.Decl.Type.Params.List; len(ps) == 1 && len(ps[0].Names) == 1 {
+			param = info.ObjectOf(ps[0].Names[0])
+		}
+		if param == nil {
+			return []dtLeaf{{Undecided: "expected one named parameter"}}
+		}
+		t := &DTable{c: c, fn: fn, info: info}
+		t.Inline = func(f *types.Func) bool {
+			return f.Pkg() != nil && f.Pkg().Path() == modPath+"/internal/field" && f != fn.Obj
+		}
+		t.Bind = func(r *dtRun, e ast.Expr, sym string) (dtVal, bool) {
+			if id, ok := e.(*ast.Ident); ok {
+				switch info.ObjectOf(id) {
+				case recv:
+					return dtVal{sym: "A"}, true
+				case param:
+					return dtVal{sym: "B"}, true
+				}
+			}
+			return dtVal{}, false
+		}
+		t.AtomName = func(e ast.Expr, sym string) string {
+			if strings.HasPrefix(sym, "cmp:") {
+				return sym
+			}
+			return ""
+		}
+		t.Call = func(r *dtRun, call *ast.CallExpr, f *types.Func, args []dtVal) (dtVal, bool) {
+			if f == nil || f.Pkg() == nil || f.Pkg().Path() != modPath+"/internal/field" {
+				return dtVal{}, false
+			}
+			sig := f.Type().(*types.Signature)
+			if sig.Recv() == nil || sig.Results().Len() != 1 || !types.Identical(sig.Results().At(0).Type(), types.Typ[types.Bool]) {
+				return dtVal{}, false
+			}
+			// evaluated in place when it is a thin wrapper; an atom when it is the comparison itself
+			if fi := c.FuncOf(f); fi != nil && fi.Decl.Body != nil && !hasLoopOrManyBranches(fi.Decl.Body) {
+				return dtVal{}, false
+			}
+			se, ok := ast.Unparen(call.Fun).(*ast.SelectorExpr)
+			if !ok {
+				return dtVal{}, false
+			}
+			rv := r.eval(se.X)
+			parts := []string{rv.sym}
+			if rv.k != dtUnknown || rv.sym == "" {
+				parts[0] = r.sym(se.X)
+			}
+			for i, a := range args {
+				if a.k == dtUnknown {
+					if a.sym != "" {
+						parts = append(parts, a.sym)
+					} else {
+						parts = append(parts, r.sym(call.Args[i]))
+					}
+				} else {
+					parts = append(parts, a.label())
+				}
+			}
+			name := "cmp:" + f.Name() + "(" + strings.Join(parts, ",") + ")"
+			return dtVal{k: dtBool, b: r.atom(call, name)}, true
+		}
+		return t.Run()
 	}
-	// every return is  !a.Less(b) && !b.Less(a)  (in either order), Less being a method of Value that orders
-	nret, good := 0, true
-	var at ast.Node = eq.Decl
-	inspectNoLit(eq.Decl.Body, func(n ast.Node) bool {
-		r, ok := n.(*ast.ReturnStmt)
-		if !ok {
-			return true
+	lt := table(less)
+	order := ""
+	okOrder := len(lt) == 2
+	for _, lf := range lt {
+		if lf.Undecided != "" || len(lf.Order) != 1 || len(lf.Ret) != 1 || lf.Ret[0].k != dtBool || lf.Ret[0].b != lf.Atoms[lf.Order[0]] {
+			okOrder = false
+			break
 		}
-		nret++
-		okr := false
-		if len(r.Results) == 1 {
-			// the calls that must all be false:  !A && !B   or   !(A || B)
-			var cs []ast.Expr
-			var negated []ast.Expr
-			flattenAnd(r.Results[0], &cs)
-			for _, cj := range cs {
-				u, ok := ast.Unparen(cj).(*ast.UnaryExpr)
-				if !ok || u.Op != token.NOT {
-					negated = nil
-					cs = nil
-					break
-				}
-				var ds []ast.Expr
-				flattenOr(u.X, &ds)
-				negated = append(negated, ds...)
-			}
-			cs = negated
-			dirs := map[string]bool{}
-			for _, cj := range cs {
-				call, ok := ast.Unparen(cj).(*ast.CallExpr)
-				if !ok || len(call.Args) != 1 {
-					continue
-				}
-				f := callee(info, call)
-				if f == nil || !strings.HasPrefix(f.Name(), "Less") || !isMethod(f, modPath+"/internal/field", "Value", f.Name()) {
-					continue
-				}
-				se := ast.Unparen(call.Fun).(*ast.SelectorExpr)
-				rid, ok1 := ast.Unparen(se.X).(*ast.Ident)
-				aid, ok2 := ast.Unparen(call.Args[0]).(*ast.Ident)
-				if !ok1 || !ok2 {
-					continue
-				}
-				switch {
-				case info.ObjectOf(rid) == recv && info.ObjectOf(aid) == param:
-					dirs["ab"] = true
-				case info.ObjectOf(rid) == param && info.ObjectOf(aid) == recv:
-					dirs["ba"] = true
-				}
-			}
-			okr = len(cs) == 2 && dirs["ab"] && dirs["ba"]
+		if order != "" && order != lf.Order[0] {
+			okOrder = false
 		}
-		if !okr {
-			good = false
-			at = r
+		order = lf.Order[0]
+	}
+	if !okOrder || !strings.Contains(order, "(A,B") {
+		why := "Less does not reduce to one comparison of its two operands"
+		for _, lf := range lt {
+			if lf.Undecided != "" {
+				why = lf.Undecided
+			}
+		}
+		c.und("Value.Less", less.Decl.Pos(), "the order is not recognised: %s", why)
+		return
+	}
+	mirror := strings.Replace(order, "(A,B", "(B,A", 1)
+	et := table(eq)
+	bad := ""
+	var at token.Pos = eq.Decl.Pos()
+	for _, lf := range et {
+		if lf.Undecided != "" {
+			c.und("Value.Equals", eq.Decl.Pos(), "%s", lf.Undecided)
+			return
+		}
+		if lf.RetPos.IsValid() {
+			at = lf.RetPos
+		}
+		if len(lf.Ret) != 1 || lf.Ret[0].k != dtBool {
+			bad = "a result that is not decided by the order [" + lf.atomsStr() + "]"
+			break
+		}
+		foreign := ""
+		for _, a := range lf.Order {
+			if a != order && a != mirror {
+				foreign = a
+			}
+		}
+		if foreign != "" {
+			bad = "the result depends on " + foreign + ", which is not the order Less defines"
+			break
+		}
+		ab, hasAB := lf.Atoms[order]
+		ba, hasBA := lf.Atoms[mirror]
+		if lf.Ret[0].b {
+			if !(hasAB && hasBA && !ab && !ba) {
+				bad = "true is returned without both Less(a, b) and Less(b, a) having been found false [" + lf.atomsStr() + "]"
+				break
+			}
+		} else if !(hasAB && ab || hasBA && ba) {
+			bad = "false is returned although neither value orders before the other [" + lf.atomsStr() + "]"
+			break
+		}
+	}
+	c.stat("equals_leaves", len(et))
+	c.check(bad == "" && len(et) > 0, "Value.Equals", at, "Equals is true exactly when neither Less(a, b) nor Less(b, a): the equality of the order ("+order+")",
+		"Value.Equals compares the values itself instead of deriving equality from Less ("+bad+"): equality filters (==, !=, WHEREIN) and order filters (<, <=, ranges) can now disagree on whether two values are the same — the documented value order is defined in one place, Less")
+}
+
+// hasLoopOrManyBranches: the body is more than a thin wrapper (a loop, or more than two branch statements).
+func hasLoopOrManyBranches(body *ast.BlockStmt) bool {
+	loops, branches := 0, 0
+	ast.Inspect(body, func(n ast.Node) bool {
+		switch n.(type) {
+		case *ast.ForStmt, *ast.RangeStmt:
+			loops++
+		case *ast.IfStmt, *ast.SwitchStmt, *ast.TypeSwitchStmt:
+			branches++
 		}
 		return true
 	})
-	c.check(good && nret > 0, "Value.Equals", at.Pos(), "Equals is !a.Less(b) && !b.Less(a): the equality of the order", "Value.Equals compares the values itself instead of deriving equality from Less: equality filters (==, !=, WHEREIN) and order filters (<, <=, ranges) can now disagree on whether two values are the same — the documented value order is defined in one place, Less")
+	return loops > 0 || branches > 2
 }
 
 func flattenOr(e ast.Expr, out *[]ast.Expr) {
